@@ -12,7 +12,7 @@ Decided by spec/CtxStack.tla (+ spec/TraceCtxStack.tla):
            Trees of 2-4 predicted behaviours are also executed in real threads under a deterministic
            scheduler (one probe at a time, seeded merge order).
   code -> spec
-           1-16 real threads run seeded random trees (all 24 kinds, deeper/wider than the enumeration)
+           1-16 real threads run seeded random trees (all 28 kinds, deeper/wider than the enumeration)
            concurrently; the merged probe log of each run is validated by TLC against TraceCtxStack
            (reuses the CtxStack actions; acceptance is TLC's verdict).
 """
@@ -54,7 +54,7 @@ def klabel(k):
         return 'driver'
     w = k['w']
     if w == 'cvt':
-        return 'convert-%s-%s' % ('rec' if k['rec'] else 'nonrec', 'ur' if k['ur'] else 'nur')
+        return 'convert-%s%s-%s' % ('lambda-' if k.get('lam') else '', 'rec' if k['rec'] else 'nonrec', 'ur' if k['ur'] else 'nur')
     if w == 'ic':
         return 'internal-%s-%s-%s' % (k['src'], 'cbd' if k['cbd'] else 'ncbd', 'ur' if k['ur'] else 'nur')
     return {'dnc': 'do_not_convert', 'uns': 'unspecified', 'blk': 'with-block', 'plain': 'plain'}[w]
@@ -192,7 +192,7 @@ def make_run(rid, logs, esc):
     merged.sort(key=lambda x: x[0])
     cid = {}
     evs = []
-    nokind = dict(w='-', rec=False, ur=False, src='none', cbd=False)
+    nokind = dict(w='-', rec=False, ur=False, src='none', cbd=False, lam=False)
     for _, t, e in merged:
         k = dict(nokind)
         if e[8] is not None:
@@ -249,9 +249,10 @@ def validate_runs(rep, runs, meta, workers, tag):
 # seeded random trees for the stress runs (inputs only; TLC decides what is right for them)
 
 def all_kinds():
-    ks = [dict(w='cvt', rec=r, ur=u, src='none', cbd=False) for r in (False, True) for u in (False, True)]
-    ks += [dict(w=w, rec=False, ur=False, src='none', cbd=False) for w in ('dnc', 'uns', 'blk', 'plain')]
-    ks += [dict(w='ic', rec=True, ur=u, src=s, cbd=c) for s in ('cur', 'E', 'D', 'U') for c in (False, True)
+    ks = [dict(w='cvt', rec=r, ur=u, src='none', cbd=False, lam=l) for l in (False, True) for r in (False, True)
+          for u in (False, True)]
+    ks += [dict(w=w, rec=False, ur=False, src='none', cbd=False, lam=False) for w in ('dnc', 'uns', 'blk', 'plain')]
+    ks += [dict(w='ic', rec=True, ur=u, src=s, cbd=c, lam=False) for s in ('cur', 'E', 'D', 'U') for c in (False, True)
            for u in (False, True)]
     return ks
 
@@ -263,7 +264,8 @@ def random_tree(rng, kinds, max_depth, max_width, max_nodes):
         for _ in range(rng.randint(0 if depth else 1, max_width)):
             if len(tree) >= max_nodes:
                 return
-            tree.append(dict(p=parent, k=rng.choice(kinds), catch=rng.random() < 0.5, raises=rng.random() < 0.3))
+            tree.append(dict(p=parent, k=rng.choice(kinds), catch=rng.random() < 0.5,
+                             raises=rng.choice([0, 0, 0, 0, 0, 1, 1, 2])))    # 2: a BaseException that is no Exception
             me = len(tree)
             if depth + 1 < max_depth:
                 grow(me, depth + 1)
@@ -320,7 +322,7 @@ def run(rep):
                                 predicted_log=cases[len(cases) // 2]['log']))
             del res, cases
 
-    # --- spec -> code, sampled deeper behaviours over all 24 kinds (TLC -simulate, seeded)
+    # --- spec -> code, sampled deeper behaviours over all 28 kinds (TLC -simulate, seeded)
     nsim = max(1, (2400 if quick else 48000) // W)        # -simulate num is per worker
     res = tlc.run_tlc('CtxStack', _cfg([1], 4, 3, 8, 'KindsAll', True, expect=True), workers=W, timeout=1500,
                       simulate=dict(num=nsim, depth=500), seed=seed, name='CtxStack_sim').require_ok('CtxStack simulate')
